@@ -1096,6 +1096,12 @@ func (s *IPSets) writeUpdates(setName string, w io.Writer, listener UpdateListen
 				targetSet, desiredMeta.Type, s.IPVersionConfig.Family, desiredMeta.MaxSize)
 		}
 
+		if needTempIPSet && err == nil {
+			// Start tracking the temporary IP set as soon as we've asked for it to be created.
+			// If a later write fails, ipset may already have executed the create and, since we
+			// don't want the temp set, recording it makes sure it gets cleaned up.
+			s.setNameToProgrammedMetadata.Dataplane().Set(tempSet, desiredMeta)
+		}
 	}
 	if err != nil {
 		return
